@@ -8,6 +8,7 @@ import Proofs.C10SpecDedup
 import Proofs.C10NtsLookup
 import Proofs.C10Ring
 import Proofs.C10Strategy
+import Proofs.C10Ordered
 /-!
 # C10 — replica sets for a token equal Cassandra's placement  (property theorems)
 
@@ -23,7 +24,7 @@ any number of tokens per node, datacenters, racks, replication factors incl. 0 /
 to the ring.  The old failing inputs are kept as regression `example`s at the end.
 -/
 namespace C10
-open Placement C10Lookup C10Simple C10Nts C10NtsNodup C10NtsSpec C10SpecDedup C10NtsLookup C10Ring C10Strategy
+open Placement C10Lookup C10Simple C10Nts C10NtsNodup C10NtsSpec C10SpecDedup C10NtsLookup C10Ring C10Strategy C10Ordered
 
 /-! ## ring lookup -/
 
@@ -501,6 +502,66 @@ theorem C10_strategy_nts_map (cls : List Char) (opts : List (List Char × OptVal
 example : getStrategy "org.apache.cassandra.locator.NetworkTopologyStrategy".toList
     [("class".toList, .str "x".toList), ("dc1".toList, .str "3".toList), ("dc2".toList, .int 2),
      ("dc3".toList, .str "3/1".toList)] matches .nts [(_, 3), (_, 2)] := by decide
+
+/-! ## the ordered partitioner (ByteOrderedPartitioner): ring tokens are reported as hexadecimal TEXT  (KF-C10-5)
+
+Cassandra reports a ByteOrderedPartitioner token in `system.local` / `system.peers` as the lowercase hexadecimal
+rendering of its bytes.  `orderedPartitioner.ParseString` keeps that text as the token; `Hash` takes the raw key bytes.
+The ORDER of the ring is nevertheless right for every ring (`C10_ordered_ring_order`, `C10_ordered_ring`: the rendering
+is strictly monotone), hence so is every replica map, which only depends on that order.  What fails is the lookup of a
+partition key: its raw bytes are compared with the TEXT of the ring tokens.
+
+FULL property — does NOT hold for the unchanged code (`C10_cex_ordered_lookup`):
+
+  theorem C10_ordered_lookup (cring : List OEntry) (hs : SortedO cring) (hb : ∀ e ∈ cring, IsBytes e.1) (key : List Nat) :
+      (getHostForTokenO (buildRingO (Spec.reported cring)) (orderedHash key)).map (·.2)
+        = (Spec.ownerO cring key).map (·.2)
+-/
+
+/-- the driver orders ring tokens (the reported text, through `ParseString` and `orderedToken.Less`) exactly as
+Cassandra orders the tokens (byte strings) — for ALL byte strings -/
+theorem C10_ordered_ring_order (a b : List Nat) (ha : IsBytes a) (hb : IsBytes b) :
+    lexLt (orderedParse (Spec.hexOf a)) (orderedParse (Spec.hexOf b)) = lexLt a b := by
+  have := hex_lexLt a b ha hb
+  unfold orderedParse
+  cases h1 : lexLt (Spec.hexOf a) (Spec.hexOf b) <;> cases h2 : lexLt a b <;> simp_all
+
+/-- for every ring (ascending by token, any number of tokens per node): the ring `newTokenRing` builds from the reported
+tokens lists the same hosts in the same order as Cassandra's ring, entry by entry the rendering of Cassandra's token -/
+theorem C10_ordered_ring (cring : List OEntry) (hs : SortedO cring) (hb : ∀ e ∈ cring, IsBytes e.1) :
+    buildRingO (Spec.reported cring) = cring.map (fun e => (Spec.hexOf e.1, e.2)) :=
+  buildRingO_reported cring hs hb
+
+/-- `C10_ordered_lookup_partial`: the owner `GetHostForToken` returns for the token of a partition key is the owner on
+Cassandra's ring for every ring and every key for which comparing the key with the reported TEXT of each ring token
+gives the same answer as comparing it with the token (`hag` — exactly the predicate by which the harness keeps lookups
+out of the spec-backed diff). -/
+theorem C10_ordered_lookup_partial (cring : List OEntry) (hs : SortedO cring) (hb : ∀ e ∈ cring, IsBytes e.1)
+    (key : List Nat) (hag : ∀ e ∈ cring, lexLt (Spec.hexOf e.1) key = lexLt e.1 key) :
+    (getHostForTokenO (buildRingO (Spec.reported cring)) (orderedHash key)).map (·.2)
+      = (Spec.ownerO cring key).map (·.2) := by
+  rw [buildRingO_reported cring hs hb]
+  unfold getHostForTokenO Spec.ownerO orderedHash
+  have hl : (rendered cring).length = cring.length := by simp [rendered]
+  rw [hl, lookupIdxO_rendered cring key hag, lookupIdxO_eq cring key hs]
+  by_cases h0 : cring.length = 0
+  · have : cring = [] := List.length_eq_zero_iff.mp h0
+    subst this; rfl
+  · rw [if_neg h0]
+    simp only [rendered, List.getElem?_map, Option.map_map]
+    rfl
+
+example : (Spec.ownerO [([0x40], (⟨1, 1, 1⟩ : Host)), ([0x80], ⟨2, 1, 1⟩)] [0x41]).map (·.2.id) = some 2 := by decide
+
+/-- `C10_cex_ordered_lookup` (kernel-checked counterexample to the full property): ring a = 0x40, b = 0x80 (reported as
+the texts "40", "80"); the key with the single byte 0x50 lies in (0x40, 0x80] and belongs to b; the driver compares
+0x50 = 'P' with the texts "40" and "80", finds it above both, wraps around and answers a. -/
+theorem C10_cex_ordered_lookup :
+    let cring : List OEntry := [([0x40], ⟨1, 1, 1⟩), ([0x80], ⟨2, 1, 1⟩)]
+    SortedO cring ∧ (∀ e ∈ cring, IsBytes e.1) ∧
+    (getHostForTokenO (buildRingO (Spec.reported cring)) (orderedHash [0x50])).map (·.2.id) = some 1 ∧
+    (Spec.ownerO cring [0x50]).map (·.2.id) = some 2 := by
+  refine ⟨by unfold SortedO; decide, by unfold IsBytes; decide, by decide, by decide⟩
 
 /-! ## regression: the inputs of the repaired findings -/
 
